@@ -429,12 +429,52 @@ func (s *sut) project() (m tl.M, tie bool) {
 	}, tie
 }
 
+var seenStates = map[string]bool{}
+var lastStrict = true // strict gapless property on the final state of the last behaviour run
+
+// norm fills in the accounts a TLC behaviour does not mention (models with fewer accounts).
+func norm(b *ablock) *ablock {
+	if b == nil {
+		return nil
+	}
+	if b.Nonce == nil {
+		b.Nonce = map[string]int64{}
+	}
+	if b.Bal == nil {
+		b.Bal = map[string]int64{}
+	}
+	if b.Deleg == nil {
+		b.Deleg = map[string]bool{}
+	}
+	if b.Txs == nil {
+		b.Txs = []atx{}
+	}
+	for _, n := range acctNames {
+		b.Nonce[n], b.Bal[n], b.Deleg[n] = b.Nonce[n], b.Bal[n], b.Deleg[n]
+	}
+	return b
+}
+
+// strictGapless evaluates the property as stated on a projection: every pending list is a
+// gapless nonce run starting at the account's state nonce.
+func strictGapless(st tl.M, nonce map[string]int64) bool {
+	for n, txs := range st["pend"].(map[string][]atx) {
+		for i, t := range txs {
+			if t.Nonce != nonce[n]+int64(i) {
+				return false
+			}
+		}
+	}
+	return true
+}
+
 // run executes one behaviour on a fresh pool and writes its events; returns the number of ops.
 func run(tr *tl.Trace, steps []step, sum *tl.Summary) int {
 	if len(steps) == 0 || steps[0].Act.Op != "init" {
 		tl.Fatal("behaviour does not start with init")
 	}
 	in := steps[0].Act
+	norm(in.Genesis)
 	s := newSUT(in.Cfg, in.Genesis, in.Tip)
 	defer s.close()
 	st, _ := s.project()
@@ -442,12 +482,15 @@ func run(tr *tl.Trace, steps []step, sum *tl.Summary) int {
 	n := 0
 	for i := range steps[1:] {
 		a := &steps[1+i].Act
+		norm(a.Block)
 		cls := s.apply(a)
 		st, tie := s.project()
 		if tie {
 			sum.Notes = append(sum.Notes, "equal heartbeats observed; rest of the behaviour skipped")
 			break
 		}
+		lastStrict = strictGapless(st, s.chain.head.abs.Nonce)
+		seenStates[fmt.Sprint(st["pend"], st["queue"], st["urg"], st["flo"], st["stales"])] = true
 		ev := tl.M{"op": a.Op, "err": cls, "state": st, "id": a.ID, "tip": a.Tip}
 		if a.Tx != nil {
 			ev["tx"] = a.Tx
@@ -491,13 +534,35 @@ func runReplay(in, trace string, sum *tl.Summary) {
 	sum.Rule = "every behaviour printed by TLC (simulation of MCLegacyPool) is executed operation by operation on a fresh legacypool.LegacyPool; distinct = distinct behaviours"
 }
 
+// runWitness replays the model's witnesses of the known finding C41-gap-after-reorg and
+// reports on how many of them the real pool ends in a state violating the strict property.
+func runWitness(in, trace string, sum *tl.Summary) {
+	var behaviours [][]step
+	tl.ReadJSON(in, &behaviours)
+	tr := tl.NewTrace(trace)
+	defer tr.Close()
+	reproduced := 0
+	for _, b := range behaviours {
+		n := run(tr, b, sum)
+		sum.Traces++
+		sum.Evaluations++
+		sum.Steps += n
+		if !lastStrict {
+			reproduced++
+		}
+	}
+	sum.Extra["witnesses"] = len(behaviours)
+	sum.Extra["reproduced_on_real_pool"] = reproduced
+	sum.Distinct = reproduced
+	sum.Rule = "model witnesses of a gapped pending list after Reset replayed on the real pool; distinct = witnesses whose final real state violates the strict property"
+}
+
 var feeMenu = [][2]int64{{20, 20}, {21, 21}, {22, 22}, {22, 2}, {25, 5}, {30, 30}, {19, 19}, {2, 2}, {24, 24}, {40, 1}}
 
 func runRecord(trace string, seed int64, ntraces, nsteps int, sum *tl.Summary) {
 	r := tl.Rand(seed)
 	tr := tl.NewTrace(trace)
 	defer tr.Close()
-	states := map[string]bool{}
 	for t := 0; t < ntraces; t++ {
 		cfg := &acfg{Bump: []int64{10, 10, 25}[r.Intn(3)], ASlots: int64(1 + r.Intn(3)), GSlots: int64(2 + r.Intn(4)),
 			AQueue: int64(1 + r.Intn(3)), GQueue: int64(1 + r.Intn(4))}
@@ -617,15 +682,12 @@ func runRecord(trace string, seed int64, ntraces, nsteps int, sum *tl.Summary) {
 		}
 	}
 	// distinct non-trivial cases: distinct projected pool states seen
-	for _, ev := range tl.ReadNDJSON(trace) {
-		states[fmt.Sprint(ev["state"])] = true
-	}
-	sum.Distinct = len(states)
+	sum.Distinct = len(seenStates)
 	sum.Rule = "seeded random Add/Reset/SetGasTip sequences over 3 accounts with tiny random limits, forks up to depth 3, balance/nonce/delegation changes; distinct = distinct projected pool states"
 }
 
 func main() {
-	mode := flag.String("mode", "record", "replay|record")
+	mode := flag.String("mode", "record", "replay|witness|record")
 	in := flag.String("in", "", "behaviours json (mode replay)")
 	trace := flag.String("trace", "trace.ndjson", "output trace")
 	out := flag.String("out", "summary.json", "summary output")
@@ -638,6 +700,8 @@ func main() {
 	switch *mode {
 	case "replay":
 		runReplay(*in, *trace, sum)
+	case "witness":
+		runWitness(*in, *trace, sum)
 	case "record":
 		runRecord(*trace, seed, *n, *steps, sum)
 	default:
